@@ -309,7 +309,7 @@ func TestVerifC05(t *testing.T) {
 		}
 	})
 
-	n := r.N(3000, 500000)
+	n := r.N(3000, 120000)
 	r.Cases("hist", n, func(i int, id string, rng *vk.Rand) {
 		h := hGenerate(rng, true)
 		if r.WantSample() {
